@@ -67,6 +67,10 @@ register("C15", "fault_enumeration", "E1 explore", "deviation-bounded choice-tre
          "Histories of 0..2 good calls, one faulty call (missing source, wrong type, rejected name, or the k-th filesystem answer raising EACCES/EIO/ENOENT for every k), 0..2 good calls, with/close; both readers judge the closed archive against the model of successful calls; re-opening of the failed source is observed through the path objects.",
          "Faults are injected through pathlib.PosixPath subclasses and a BufferedIOBase wrapper handed to the public API.", "DESIGN.md section 5 C15")
 
+register("C05", "fault_enumeration", "E4 device", "exhaustive enumeration of damaged / structure-mutated inputs x bounded call sequences on the real reader under time and address-space budgets",
+         "Every truncation and bit flip of the base archives, section splices, every single-token mutation (and section drop/dup/swap) of ten reference-written headers with CRCs re-sealed, missing/wrong passwords; on every input that opens, every call sequence of length <= 2 (thorough 3) over 7 calls on one session. Oracle: per-call time budget, no MemoryError under baseline + 1 GiB, worker process alive (a crash under the limit is re-judged without the limit by peak RSS).",
+         "LZMA/LZMA2/PPMd dictionary-size properties are not mutated (a large dictionary is a legal declaration). Budgets are >= 1000x the normal cost.", "DESIGN.md section 5 C05")
+
 NOT_YET = {}
 
 
